@@ -419,7 +419,10 @@ fn counters() {
                     // whatever stays buffered must be alive and have lost a pointer at some time
                     for &x in &observed {
                         let o = &w.objs[x as usize];
-                        if !o.lost_ptr && o.fin_count == 0 && !o.tainted {
+                        // (not decidable when a callback of this call acquired or released pointers: the drop
+                        // glue that runs after a destructor may then release a pointer to an object that got
+                        // a second owner meanwhile - the quantifier of C11 excludes exactly those programs)
+                        if !o.lost_ptr && o.fin_count == 0 && !o.tainted && !w.ptr_ops_in_callbacks {
                             w.violation(&["C11"], "buffered-set", "buffered-set/never-lost-a-pointer".into(), format!("obj{} is buffered after a collection but never lost a pointer", x), false);
                         }
                     }
